@@ -95,3 +95,33 @@ Fixpoint small_seqs (v : nvalue) : bool :=
   | NMap kvs => (N.of_nat (length kvs) <=? 65536) && forallb (fun kv => small_seqs (fst kv) && small_seqs (snd kv)) kvs
   | _ => true
   end.
+
+(* ---- the scope of the re-encode theorem (C18) ---- *)
+(* JSON values as serde_json holds them: strings are valid UTF-8 byte strings, object keys are
+   strictly ascending, arrays and objects of moderate length (beyond that: known finding F9) *)
+Fixpoint json_wf (j : json) : bool :=
+  match j with
+  | JFloat b => (b <? 2 ^ 64) && f64_finite b
+  | JStr bs => bytes_okb bs && utf8_valid bs && (N.of_nat (length bs) <? 2 ^ 64)
+  | JArr l => forallb json_wf l && (N.of_nat (length l) <=? 65536)
+  | JObj kvs =>
+    forallb (fun kv => bytes_okb (fst kv) && utf8_valid (fst kv) && (N.of_nat (length (fst kv)) <? 2 ^ 64) && json_wf (snd kv)) kvs
+    && keys_ascending (map fst kvs) && (N.of_nat (length kvs) <=? 65536)
+  | _ => true
+  end.
+
+(* schemas outside the known classes F7 (nullable payload directly inside Option) and F8
+   (duplicate field names in one struct body) *)
+Definition body_ok (ok : schema -> bool) (k : dkind) (fs : list (str * schema)) : bool :=
+  forallb (fun f => ok (snd f)) fs && match k with DStruct => names_distinct (map fst fs) | _ => true end.
+Fixpoint reenc_scope (s : schema) : bool :=
+  match s with
+  | SPrim _ => true
+  | SOption t => negb (nullable t) && reenc_scope t
+  | SSeq t => reenc_scope t
+  | STuple ts => forallb reenc_scope ts
+  | SMap k v => reenc_scope v
+  | SStruct _ k fs => body_ok reenc_scope k fs
+  | SEnum _ vs => forallb (fun v => body_ok reenc_scope (snd (fst v)) (snd v)) vs && (N.of_nat (length vs) <? 2 ^ 64)
+  end.
+
